@@ -15,7 +15,7 @@ Requirements for the change:
 - It must be a plausible mistake or "refactor" a developer could make (1-30 lines), in non-test .go files only, not gated by build tags.
 - It must need something specific to manifest: a particular multi-step sequence of operations, an unusual input, a fault/crash at a particular point, a particular interleaving, or two cooperating sites that each look fine alone. It must NOT be something ordinary use or the existing tests expose at once. {hint}
 - The tree must still compile (`go build ./...` in the touched module, `go vet` not required) and the EXISTING tests of every package you touched must still pass unedited (run them; also run the tests of closely related packages, e.g. agent/consul/fsm when you touch agent/consul/state). If an existing test fails, pick a different change.
-- Provide a demonstration: a NEW Go test file (package-internal test is fine) that FAILS with your change applied and PASSES on the unmodified tree. Verify both directions yourself (use `git stash` or `git diff > patch; git checkout -- .` to flip). Do not leave the demonstration test inside the patch.
+- Provide a demonstration: a NEW Go test file (package-internal test is fine) that FAILS with your change applied and PASSES on the unmodified tree. Verify both directions yourself (flip with `git diff > /tmp/seed_out/<name>/patch.diff; git checkout -- .` and `git apply`; NEVER use `git stash`: the stash is shared between all worktrees of this repository and other people are working in sibling worktrees). Do not leave the demonstration test inside the patch.
 
 Environment (no network; every shell call needs this):
   export PATH=/opt/veriftools/go1.26.8/bin:$PATH GOTOOLCHAIN=local GOFLAGS=-mod=mod GOPROXY=off GOSUMDB=off
